@@ -722,6 +722,7 @@ for _k in ["black_it/search_space.py::SearchSpace._check_bounds",
            "black_it/schedulers/rl/agents/epsilon_greedy.py::MABEpsilonGreedy.policy",
            "black_it/schedulers/rl/agents/epsilon_greedy.py::MABEpsilonGreedy.reset",
            "black_it/utils/base.py::get_closest", "black_it/utils/base.py::digitize_data",
+           "black_it/schedulers/round_robin.py::RoundRobinScheduler.update",
            "black_it/calibrator.py::Calibrator.__validate_samplers_and_scheduler_constructor_args"]:
     REPLAY[_k] = _replay_contract
 for _c in ["BoundsNotOfSizeTwoError", "BoundsOfDifferentLengthError", "BadPrecisionLengthError",
@@ -794,6 +795,15 @@ def _c13h_cases(tier, seed):
     for s in starts:
         for d in ((1, 3) if tier == "quick" else (1, 2, 5, 40)):
             yield {"n_start": s, "size": rnd.choice([1, 2, 3, 4, 7]), "d": d}
+    # batches that END exactly on / just after a power of each of the first 12 bases (the digit count changes there),
+    # drawn with all 12 bases
+    for p in _trial_primes(12):
+        q = p * p
+        while q < 2 ** 16 + 2 ** 12:
+            for size in (1, 3):
+                yield {"n_start": q - size, "size": size, "d": 12}      # last index of the batch is q
+            yield {"n_start": q - 1, "size": 2, "d": 12}                # q is the first index
+            q *= p
 
 
 def _c13h_check(reg, case):
@@ -818,7 +828,8 @@ def _c13h_check(reg, case):
 
 
 StandIn("C13/halton-function", "C13",
-        "start indices 0-39, 2^k+{-3..1} (k=3..16), 3^k+{-2..0}, 2^16+2^12-5; sizes 1-7; 1 and 3 bases; compared with "
+        "start indices 0-39, 2^k+{-3..1} (k=3..16), 3^k+{-2..0}, 2^16+2^12-5; sizes 1-7; 1 and 3 bases; batches ending / "
+        "starting exactly on every power of the first 12 primes (12 bases); compared with "
         "exact rational radical inverses (tolerance 1e-12) and batch concatenation",
         "plus 400 seeded start indices; 1, 2, 5, 40 bases", _c13h_cases, _c13h_check)
 
